@@ -26,7 +26,7 @@ class C09(TreeCheck):
         n = 14 if tier == "quick" else 100
         out = []
         for i in range(n):
-            prog, meta = (programs.g_factory_mt(rng) if i % 3 == 2 else programs.g_factory_break_race(rng) if i % 7 == 1 else programs.g_factory(rng))
+            prog, meta = (programs.g_factory_from_callback(rng) if i % 9 == 4 else programs.g_factory_mt(rng) if i % 3 == 2 else programs.g_factory_break_race(rng) if i % 7 == 1 else programs.g_factory(rng))
             out.append({"program": prog, "config": {}, "meta": meta})
         return out
 
